@@ -93,7 +93,7 @@ def setNameKVs (pname key : String) (kvs : KVs) : KVs :=
 def setNameObj (pname key : String) : Val → Out Val
   | .null => .ok (.map (setNameKVs pname key []))
   | .map kvs => .ok (.map (setNameKVs pname key kvs))
-  | _ => .panic "loader.setNameFromKey"
+  | _ => .err "setNameFromKey"
 
 def setNameObjs (pname : String) : KVs → Out KVs
   | [] => .ok []
@@ -113,7 +113,7 @@ def setNameSection (pname sect : String) (dict : KVs) : Out KVs :=
     | .ok objs' => .ok (insert sect (.map objs') dict)
     | .err e => .err e
     | .panic s => .panic s
-  | some _ => .panic "loader.setNameFromKey"
+  | some _ => .err "setNameFromKey"
 
 /-- `fmt.Sprintf("%s", dict["name"])` for the kinds that reach it -/
 def pnameOf (dict : KVs) : Option String :=
@@ -516,7 +516,7 @@ def loadSection (isSecret : Bool) (env : Env) (pname : String) (dict : KVs) : Ou
     (setNameObjs pname (resolveObjs (if isSecret then xValue else "content") env objs)).bind fun objs2 =>
       decodeObjs (if isSecret then decodeSecret else decodeConfig)
         (pxKVs [if isSecret then "secrets" else "configs"] true objs2)
-  | some _ => .panic "loader.setNameFromKey"
+  | some _ => .err "setNameFromKey"
 
 def load (env : Env) (pname : String) (dict : KVs) : Out Proj :=
   (loadSection true env pname dict).bind fun ss =>
